@@ -114,8 +114,9 @@ func (c *Ctx) oblige(st *State, name, kind string, claim *Term, src string, pos 
 	}
 	if kind == "ensures" || strings.HasPrefix(kind, "invariant") || kind == "calls" || kind == "lemma" {
 		if parts := splitClaim(claim); len(parts) > 1 {
-			for i, p := range parts {
-				c.oblige1(st, fmt.Sprintf("%s.%d", name, i+1), kind, p, src, pos)
+			// the parts are separate proof instances of the same named obligation (stable names under refactoring)
+			for _, p := range parts {
+				c.oblige1(st, name, kind, p, src, pos)
 			}
 			return
 		}
